@@ -404,7 +404,7 @@ func (c05) Run(e *Env) {
 		}
 	}
 
-	nD := e.Range(1, 10)
+	nD := e.Range(1, 10*e.Depth())
 	for i := 0; i < nD; i++ {
 		d := deliver(false)
 		if d == nil {
